@@ -241,6 +241,63 @@ def gen_query_table(bdir):
     return len(queries), len(nist), len(rn)
 
 
+def table_object(gen_c, tab_o, inc):
+    """Compile a generated table file (ASan, no coverage hooks).  The file is regenerated from /repo's data by the
+    repo's own prdata on every build; only the compilation of byte-identical output is skipped (content hash over
+    the generated C file, the headers it includes and the flags)."""
+    flags = [CLANG] + BASE + SAN + ["-w"] + inc
+    hdrs = [os.path.join(REPO, "src", "xrayglob.h"), os.path.join(REPO, "src", "xrayvars.h")]
+    hdrs += [os.path.join(REPO, "include", f) for f in sorted(os.listdir(os.path.join(REPO, "include"))) if f.endswith(".h")]
+    hdrs.append(os.path.join(os.path.dirname(gen_c), "cfg", "config.h"))
+    key = file_hash([gen_c] + [h for h in hdrs if os.path.exists(h)], " ".join(f for f in flags if not f.startswith("-I")))
+    cachedir = os.path.join(VERIF, "build", "simcache")
+    os.makedirs(cachedir, exist_ok=True)
+    cached = os.path.join(cachedir, "table-" + key + ".o")
+    if not os.path.exists(cached):
+        tmp = cached + ".tmp%d" % os.getpid()
+        sh(flags + ["-c", gen_c, "-o", tmp])
+        os.replace(tmp, cached)
+        # keep the cache small: drop table objects other than the newest four
+        olds = sorted((f for f in os.listdir(cachedir) if f.startswith("table-") and f.endswith(".o")),
+                      key=lambda f: os.path.getmtime(os.path.join(cachedir, f)))
+        for f in olds[:-4]:
+            try:
+                os.unlink(os.path.join(cachedir, f))
+            except OSError:
+                pass
+    else:
+        os.utime(cached)
+    shutil.copyfile(cached, tab_o)
+    return tab_o
+
+
+def build_kissel_table(bdir, odir, prdata, inc):
+    """Optional data configuration "K" (DESIGN §9): kissel_pe.dat regenerated from data/kissel by a Python port of
+    the upstream IDL converter, in a scratch project root whose data/ links to the shipped files."""
+    from . import kissel as K
+    kroot = os.path.join(bdir, "kroot")
+    shutil.rmtree(kroot, ignore_errors=True)
+    os.makedirs(os.path.join(kroot, "data"))
+    os.makedirs(os.path.join(kroot, "cfg"))
+    shutil.copyfile(os.path.join(bdir, "cfg", "config.h"), os.path.join(kroot, "cfg", "config.h"))
+    for f in os.listdir(os.path.join(REPO, "data")):
+        if f != "kissel_pe.dat":
+            os.symlink(os.path.join(REPO, "data", f), os.path.join(kroot, "data", f))
+    shipped = os.path.join(REPO, "data", "kissel_pe.dat")
+    if os.path.exists(shipped) and os.path.getsize(shipped) > 0:
+        os.symlink(shipped, os.path.join(kroot, "data", "kissel_pe.dat"))
+        nel = -1
+    else:
+        nel = K.convert(os.path.join(REPO, "data", "kissel"), os.path.join(kroot, "data", "kissel_pe.dat"))
+    gen_c = os.path.join(kroot, "xrayglob_inline.c")
+    r = subprocess.run([prdata, kroot, gen_c], stdout=subprocess.PIPE, stderr=subprocess.STDOUT, text=True, timeout=600)
+    if r.returncode != 0 or not os.path.exists(gen_c):
+        raise BuildError("prdata failed on the Kissel configuration: rc=%d\n%s" % (r.returncode, r.stdout[-2000:]))
+    tab_o = os.path.join(odir, "xrayglob_inline_K.o")
+    table_object(gen_c, tab_o, inc)
+    return tab_o, nel
+
+
 def file_hash(paths, extra=""):
     h = hashlib.sha256(extra.encode())
     for p in sorted(paths):
@@ -249,7 +306,7 @@ def file_hash(paths, extra=""):
     return h.hexdigest()[:20]
 
 
-def build(tag, verbose=False, jobs=16):
+def build(tag, verbose=False, jobs=16, kissel=False):
     """Build everything for one check invocation into /verif/build/<tag>. Returns info dict."""
     t0 = time.time()
     bdir = os.path.join(VERIF, "build", tag)
@@ -286,7 +343,8 @@ def build(tag, verbose=False, jobs=16):
         if r.returncode != 0 or not os.path.exists(gen_c):
             raise BuildError("prdata failed: rc=%d\n%s" % (r.returncode, r.stdout[-2000:]))
         tab_o = os.path.join(odir, "xrayglob_inline.o")
-        tab_fut = ex.submit(sh, [CLANG] + BASE + SAN + ["-w"] + inc + ["-c", gen_c, "-o", tab_o])
+        tab_fut = ex.submit(table_object, gen_c, tab_o, inc)
+        k_fut = ex.submit(build_kissel_table, bdir, odir, prdata, inc) if kissel else None
         # --- simulator objects (cached by content)
         nq = gen_query_table(bdir)
         info["queries"], info["nist_names"], info["rn_names"] = nq
@@ -364,6 +422,32 @@ def build(tag, verbose=False, jobs=16):
         f.write(sh(["nm", "-n", "-S", "--defined-only", exe]))
     os.unlink(merged)
     shutil.copyfile(os.path.join(REPO, "data", "Crystals.dat"), os.path.join(bdir, "Crystals.dat"))
+    if k_fut is not None:
+        tab_k, nel = k_fut.result()
+        kdir = os.path.join(bdir, "K")
+        shutil.rmtree(kdir, ignore_errors=True)
+        os.makedirs(kdir)
+        with open(os.path.join(kdir, "tables.sym"), "w") as f:
+            f.write(sh(["nm", "-S", "--defined-only", tab_k]))
+        merged_k = os.path.join(odir, "libmerged_K.o")
+        sh(["ld", "-r", "-o", merged_k] + lib_objs + [tab_k])
+        with open(os.path.join(kdir, "libfuncs.sym"), "w") as f:
+            f.write(sh(["nm", "-S", "--defined-only", merged_k]))
+        final_k = os.path.join(odir, "libxrl_sim_K.o")
+        sh(["objcopy", "--redefine-syms=" + seam_map, merged_k, final_k])
+        os.unlink(merged_k)
+        exe_k = os.path.join(kdir, "xrlsim")
+        sh([CLANGXX, "-fsanitize=address,undefined", "-g", "-o", exe_k] + sim_objs + [final_k, "-lm", "-lpthread", "-ldl"])
+        with open(os.path.join(kdir, "exe.sym"), "w") as f:
+            f.write(sh(["nm", "-n", "-S", "--defined-only", exe_k]))
+        for f in ("catalogue.names", "xrayvars.sym", "Crystals.dat"):
+            shutil.copyfile(os.path.join(bdir, f), os.path.join(kdir, f))
+        os.unlink(final_k)
+        os.unlink(tab_k)
+        shutil.rmtree(os.path.join(bdir, "kroot"), ignore_errors=True)
+        info["exe_K"] = exe_k
+        info["bdir_K"] = kdir
+        info["kissel_elements_converted"] = nel
     info["exe"] = exe
     info["bdir"] = bdir
     info["build_s"] = round(time.time() - t0, 2)
